@@ -36,6 +36,19 @@ type entry struct {
 type plan struct {
 	Entries []entry
 	Tape    []uint64
+	// H: codec-through-storage mode - a store history made mostly of long
+	// regular and irregular runs of every field type, written through the
+	// WAL, snapshotted into blocks, re-encoded by compactions and read back
+	// through the iterator decoders and the array (batch) decoders
+	H *storesim.HPlan
+}
+
+// codecProfile: long runs (block codecs pick their schemes from the shape of
+// the run), snapshots and compactions that decode and re-encode them, reads.
+var codecProfile = storesim.Profile{
+	Name: "C13", WWrite: 6, WBig: 30, WSnapshot: 18, WCompact: 14, WCompactFiles: 8, WStagger: 4,
+	WDelete: 3, WReopen: 4, WRead: 6,
+	CheckReads: true, MaxOps: 16, MaxShards: 1,
 }
 
 var keyUniverse = func() []string {
@@ -95,6 +108,10 @@ func genEntry(t *rapid.T, label string) entry {
 
 func genPlan(t *rapid.T) interface{} {
 	p := &plan{}
+	if rapid.IntRange(0, 3).Draw(t, "codecmode") == 0 {
+		p.H = storesim.GenHPlan(t, &codecProfile)
+		return p
+	}
 	n := rapid.IntRange(1, 12).Draw(t, "n")
 	for i := 0; i < n; i++ {
 		p.Entries = append(p.Entries, genEntry(t, fmt.Sprintf("e%d", i)))
@@ -211,6 +228,13 @@ func loadInto(path string) (*tsm1.Cache, error) {
 
 func exec(run *core.Run, pl interface{}) {
 	p := pl.(*plan)
+	if p.H != nil {
+		h := &storesim.History{Run: run, Pr: &codecProfile, Plan: p.H, Root: filepath.Join(run.Scratch, "store")}
+		h.Exec()
+		run.Probe("codec-history-run")
+		run.NonTrivial = true
+		return
+	}
 	tape := &storesim.Tape{V: p.Tape}
 	dir := filepath.Join(run.Scratch, "wal")
 	w := tsm1.NewWAL(dir)
@@ -356,6 +380,9 @@ func exec(run *core.Run, pl interface{}) {
 
 func describe(pl interface{}) interface{} {
 	p := pl.(*plan)
+	if p.H != nil {
+		return storesim.DescribeHPlan(p.H)
+	}
 	var es []string
 	for _, e := range p.Entries {
 		switch e.Kind {
@@ -391,15 +418,16 @@ func TestC13(t *testing.T) {
 		Property:       "C13",
 		Gen:            genPlan,
 		Exec:           exec,
-		Bubble:         false,
+		Bubble:         true,
+		Warmup:         storesim.Warmup,
 		Describe:       describe,
 		Tier:           "A",
-		RequiredProbes: []string{"cut-inside-entry", "cut-at-boundary"},
-		Real:           []string{"tsm1.WAL (WriteMulti/Delete/DeleteRange, segment writer)", "tsm1.CacheLoader", "tsm1.WALSegmentReader", "WAL entry codecs", "tsm1.Cache"},
+		RequiredProbes: []string{"cut-inside-entry", "cut-at-boundary", "codec-history-run"},
+		Real:           []string{"tsm1.WAL (WriteMulti/Delete/DeleteRange, segment writer)", "tsm1.CacheLoader", "tsm1.WALSegmentReader", "WAL entry codecs", "tsm1.Cache", "codec mode: the whole tsm1 engine incl. block encoders, iterator decoders and array (batch) decoders"},
 		Stub:           []string{"none"},
 		Assumptions: []string{
 			"a torn tail is a truncation of the segment (optionally followed by zero bytes from an entry boundary); bit flips inside entries are not modelled (the log has no checksum)",
-			"codec clause (block encodings) is covered only through the storage workloads of C02/C09, not searched here",
+			"the codec clause (block encodings) is a pure function of its input and is not searched as such; it is exercised through storage workloads: one run in four here (long runs of every type with regular steps from nanoseconds to 10^13 ns, constant / linear / alternating / pseudo-random values, through WAL, snapshot, compaction and both read paths) and the workloads of C02/C09",
 		},
 		Rule: "a run = seeded sequence of WAL write/delete/delete-range entries appended through the real WAL, the segment then cut at every byte offset (<=1500 bytes) or at every entry boundary +-6 and 300 seeded offsets, each cut replayed twice by the real CacheLoader; non-trivial = more than two cuts replayed; distinct = distinct (entry kinds, fault kinds, probes, segment size)",
 	})
